@@ -64,12 +64,12 @@ PROPS["C14"] = {
 }
 
 PROPS["C15"] = {
-    "units": ["multipart_payload"],
+    "units": ["multipart_payload", "multipart_field"],
     "kani": [],
     "technique": "Verus contracts on the extracted real multipart PayloadBuffer (conservation of bytes between stream, pending chunk and buffer; bounded fill; wake-up tokens) and its line/needle readers against a first-occurrence oracle",
-    "level_text": "deductive proof, for all buffer states, chunk sequences and limits, that PayloadBuffer::append_pending/poll_stream conserve bytes (buffer ++ pending is unchanged by moving data), never grow the buffer past its limit, set eof only at stream end, and never return without a wake-up source (stream registered, self-wake, or data the caller must consume); read_max/read_until/readline/unprocessed return exactly the specified prefix and report a truncated body as Incomplete",
+    "level_text": "deductive proof, for all buffer states, boundaries, chunk sequences and limits, that InnerField::read_stream never emits a byte position that is or could still become the start of CRLF--boundary, ends the field exactly at a leading delimiter, consumes nothing otherwise, reports truncation at eof as Incomplete and terminates (decreases), that read_len emits exactly the declared count; and that PayloadBuffer::append_pending/poll_stream conserve bytes (buffer ++ pending is unchanged by moving data), never grow the buffer past its limit, set eof only at stream end, and never return without a wake-up source (stream registered, self-wake, or data the caller must consume); read_max/read_until/readline/unprocessed return exactly the specified prefix and report a truncated body as Incomplete",
     "level_note": "assumes shim contracts for BytesMut/Bytes, memchr::memmem::find == first occurrence, Stream::poll_next returning Pending registers the waker, Waker::wake_by_ref establishes the wake token",
-    "not_decided": ["InnerField::read_stream / read_len delimiter scan and Multipart::read_boundary/skip_until_boundary/read_field_headers: units under construction", "header parsing of each part (httparse dependency)"],
+    "not_decided": ["Multipart::read_boundary / skip_until_boundary / read_field_headers (state machine in multipart.rs): not under contract", "header parsing of each part (httparse dependency)", "composition of read_stream calls into the whole-field content (the per-call contract: emitted bytes are a prefix containing no position that is or may become a delimiter; a delimiter at the head ends the field; nothing else is consumed)"],
     "assumptions": ["poll_stream/append_pending precondition: buffer length fits usize; a parked pending chunk is non-empty (established by the functions themselves)"],
 }
 
